@@ -345,6 +345,12 @@ def isnum(x):
     return isinstance(x, (int, float)) and x == x
 
 
+def residual(ctx, key, a, b):
+    """largest difference implementation vs reference seen in the run (the float residual of DESIGN 2.1)"""
+    if isnum(a) and isnum(b):
+        ctx.extra[key] = max(ctx.extra.get(key, 0.0), abs(a - b))
+
+
 # ------------------------------------------------------------------------------------------------
 # geometry streams
 
@@ -429,6 +435,7 @@ def check_angle(ctx, case, obs, d, P, base):
         if not isnum(got):
             ctx.fail('C15|angle|raise', f'Atoms.angle of three non-collinear atoms: {got}', pay)
             continue
+        residual(ctx, 'max_residual_angle_deg', got, spec)
         if not core.close(got, spec, TOL_DEG, 0):
             ctx.fail('C15|angle|value', f'Atoms.angle gives {got}, the angle of the Cartesian positions is {spec}', pay)
         elif not core.close(got, model, TOL_DEG, 0):
@@ -478,6 +485,8 @@ def check_torsion(ctx, case, obs, d, P, base):
         if circ(got, spec) > tol and circ(got, -spec) > tol:
             ctx.fail('C15|torsion|value|planar', f'Atoms.torsion_angle gives {got} for a planar arrangement with torsion {spec}', pay)
     else:
+        if core.close(got, spec, tol, 0):
+            residual(ctx, 'max_residual_torsion_deg', got, spec)
         if core.close(got, -spec, tol, 0) and not core.close(got, spec, tol, 0):
             ctx.fail('C15|torsion|sign', f'Atoms.torsion_angle gives {got}, the torsion angle of the Cartesian positions is {spec} '
                      f'(sign of the triple product b1.(b2xb3): {d["tor"]["triple"]})', pay)
@@ -511,7 +520,7 @@ def check_distance(ctx, case, obs, d, ca, base):
         pay = dict(base, stream='distance', which=key, expected=spec, actual=got, model=model, euclid=mine)
         if not isnum(got):
             ctx.fail('C15|distance|raise', f'Atoms.distance of two existing atoms: {got}', pay)
-        elif not core.close(got, spec, TOL_DIST, 1e-12) or not core.close(got, mine, TOL_DIST, 1e-12):
+        elif residual(ctx, 'max_residual_distance_A', got, spec) or not core.close(got, spec, TOL_DIST, 1e-12) or not core.close(got, mine, TOL_DIST, 1e-12):
             ctx.fail('C15|distance|value', f'Atoms.distance({n1}, {n2}) gives {got}; the Euclidean distance of the two positions is {mine} '
                      f'(metric tensor: {spec})', pay)
         elif not core.close(got, model, TOL_DIST, 1e-12):
